@@ -29,8 +29,9 @@ be issued.
 from __future__ import absolute_import
 
 import uuid
+import collections.abc
 
-from slimta.relay import RelayError
+from slimta.relay import RelayError, TransientRelayError
 
 
 class ProxyQueue(object):
@@ -65,11 +66,22 @@ class ProxyQueue(object):
 
     def enqueue(self, envelope):
         try:
-            self.relay._attempt(envelope, 0)
+            results = self.relay._attempt(envelope, 0)
         except RelayError as e:
             return [(envelope, e)]
-        else:
-            return [(envelope, uuid.uuid4().hex)]
+        # The relay may report a result per recipient: the message was only
+        # relayed if none of them is a failure.
+        if isinstance(results, collections.abc.Mapping):
+            results = list(results.values())
+        if isinstance(results, collections.abc.Sequence) and \
+                not isinstance(results, (str, bytes)):
+            failures = [res for res in results if isinstance(res, RelayError)]
+            for failure in failures:
+                if isinstance(failure, TransientRelayError):
+                    return [(envelope, failure)]
+            if failures:
+                return [(envelope, failures[0])]
+        return [(envelope, uuid.uuid4().hex)]
 
 
 # vim:et:fdm=marker:sts=4:sw=4:ts=4
